@@ -509,7 +509,7 @@ func c20NearTie(k int, step, size int64) bool {
 // wild: the call would draw with |fileStep| > 4 |fileSize| (or a negative size and a large step).
 // getProgressBar then asks strings.Repeat / its colour loop for total*ratio cells: gigabytes of
 // memory or hours of CPU in *this* process.  Such a call is made in a child process under a
-// memory limit and a timeout (c20Probe) and its outcome (panic | crash | hang | rendered) is the
+// memory limit and a CPU-time limit (c20Probe) and its outcome (panic | crash | hang | rendered) is the
 // observation.
 func (r *c20Run) wild(step int64) bool {
 	size := r.p.fileSize
@@ -562,36 +562,9 @@ func (r *c20Run) render(ev map[string]any, willStep int64, fn func()) map[string
 	speedStr, etaStr := "--- B/s", "--- ETA"
 	if speed > 0 {
 		speedStr = fmt.Sprintf("%s/s", convertSizeToString(speed))
-		etaStr = fmt.Sprintf("%s ETA", convertTimeToString(math.Round(float64(r.p.fileSize-r.p.fileStep)/speed)))
+		etaStr = fmt.Sprintf("%s ETA", convertTimeToString(math.Max(0, math.Round(float64(r.p.fileSize-r.p.fileStep)/speed))))
 	}
 	ev["lens"] = map[string]any{"t": len(total), "s": len(speedStr), "e": len(etaStr)}
-	var o map[string]any
-	if msg != "" {
-		o = c20EmptyObs("panic")
-		o["msg"] = msg
-		r.dead = true
-		r.panics++
-	} else {
-		o = c20Observe(out, r.left())
-		if o["res"] == "rendered" {
-			r.renders++
-			r.lastAt, r.hasLast = r.now, true
-			nf := o["nf"].(int)
-			if (nf == 4 && o["ot"] != len(total)) || (nf >= 3 && nf <= 4 && o["os"] != len(speedStr)) ||
-				(nf >= 2 && nf <= 4 && o["oe"] != len(etaStr)) {
-				r.desync++
-			}
-		}
-	}
-	fz := false
-	if o["res"] == "rendered" {
-		fz = c20NearTie(100, r.p.fileStep, r.p.fileSize) || (o["bar"] == true && c20NearTie(o["total"].(int), r.p.fileStep, r.p.fileSize))
-		if fz {
-			r.fuzzy++
-		}
-	}
-	ev["fz"] = fz
-	ev["out"] = o
 	// steering: once fileStep / fileSize left the sane range the run ends after this call
 	cls := "ok"
 	switch {
@@ -605,6 +578,34 @@ func (r *c20Run) render(ev map[string]any, willStep int64, fn func()) map[string
 	if cls != "ok" {
 		r.dead = true
 	}
+	var o map[string]any
+	if msg != "" {
+		o = c20EmptyObs("panic")
+		o["msg"] = msg
+		r.dead = true
+		r.panics++
+	} else {
+		o = c20Observe(out, r.left())
+		if o["res"] == "rendered" {
+			r.renders++
+			r.lastAt, r.hasLast = r.now, true
+			nf := o["nf"].(int)
+			// in the sane range the fields on the line must have the lengths the copy of the formatters gave
+			if cls == "ok" && ((nf == 4 && o["ot"] != len(total)) || (nf >= 3 && nf <= 4 && o["os"] != len(speedStr)) ||
+				(nf >= 2 && nf <= 4 && o["oe"] != len(etaStr))) {
+				r.desync++
+			}
+		}
+	}
+	fz := false
+	if o["res"] == "rendered" {
+		fz = c20NearTie(100, r.p.fileStep, r.p.fileSize) || (o["bar"] == true && c20NearTie(o["total"].(int), r.p.fileStep, r.p.fileSize))
+		if fz {
+			r.fuzzy++
+		}
+	}
+	ev["fz"] = fz
+	ev["out"] = o
 	r.classes[cls+"/"+o["res"].(string)]++
 	r.emit(ev)
 	return o
@@ -618,7 +619,7 @@ func (r *c20Run) done() map[string]any {
 }
 
 // c20Replay repeats a run from its event list (the fields name / vs / adv / cols / pane ...).
-func c20Replay(tr *vTrace, script []map[string]any, noProbe bool) *c20Run {
+func c20Replay(tr *vTrace, script []map[string]any, noProbe bool, before func(i int)) *c20Run {
 	var r *c20Run
 	num := func(v any) int {
 		f, _ := v.(float64)
@@ -629,7 +630,7 @@ func c20Replay(tr *vTrace, script []map[string]any, noProbe bool) *c20Run {
 		n, _ := strconv.ParseInt(s, 10, 64)
 		return n
 	}
-	for _, ev := range script {
+	for ei, ev := range script {
 		if ev["e"] == "new" {
 			r = c20NewRun(tr, num(ev["cols"]), num(ev["pane"]), ev["colour"] == true)
 			r.noProbe = noProbe
@@ -637,6 +638,9 @@ func c20Replay(tr *vTrace, script []map[string]any, noProbe bool) *c20Run {
 		}
 		if r == nil || r.dead {
 			break
+		}
+		if before != nil {
+			before(ei)
 		}
 		r.advance(time.Duration(i64(ev["adv"])))
 		switch ev["e"] {
@@ -690,7 +694,12 @@ func c20Script(d *vCtx) error {
 				script = append(script, m)
 			}
 		}
-		r := c20Replay(tr, script, d.pBool("noprobe", true))
+		marker := d.pBool("marker", false)
+		r := c20Replay(tr, script, d.pBool("noprobe", true), func(i int) {
+			if marker && i == len(script)-1 { // the parent tells a slow start from a hanging call by this file
+				_ = os.WriteFile(d.path("last-call"), []byte("x"), 0o644)
+			}
+		})
 		if r != nil {
 			r.flush()
 			_ = tr.w.Flush()
@@ -703,8 +712,26 @@ func c20Script(d *vCtx) error {
 }
 
 // c20Probe makes the pending wild call of run r in a child process (this test binary, driver
-// c20_script, address space capped, killed after `timeout`) and appends the observed event.
-func c20Probe(d *vCtx, r *c20Run, n int, timeout time.Duration) string {
+// c20_script, address space capped, killed once the call has used `cpuLimit` of CPU time) and appends the observed event.
+// c20ProcCPU: user+system CPU time of a process from /proc/<pid>/stat (clock ticks of 10 ms)
+func c20ProcCPU(pid int) time.Duration {
+	b, err := os.ReadFile(fmt.Sprintf("/proc/%d/stat", pid))
+	if err != nil {
+		return 0
+	}
+	s := string(b)
+	if i := strings.LastIndex(s, ")"); i >= 0 {
+		f := strings.Fields(s[i+1:])
+		if len(f) > 12 {
+			u, _ := strconv.ParseInt(f[11], 10, 64)
+			k, _ := strconv.ParseInt(f[12], 10, 64)
+			return time.Duration(u+k) * 10 * time.Millisecond
+		}
+	}
+	return 0
+}
+
+func c20Probe(d *vCtx, r *c20Run, n int, cpuLimit time.Duration) string {
 	dir := d.path(fmt.Sprintf("probe-%03d", n))
 	_ = os.MkdirAll(dir, 0o755)
 	script := append(append([]map[string]any{}, r.events...), r.probe)
@@ -717,22 +744,45 @@ func c20Probe(d *vCtx, r *c20Run, n int, timeout time.Duration) string {
 		f.Close()
 	}
 	cmd := exec.Command(os.Args[0], "-test.run", "^TestVerifDriver$")
-	cmd.Env = append(os.Environ(), "VERIF_DRIVER=c20_script", "VERIF_OUT="+dir, `VERIF_PARAMS={"limitgb":6,"noprobe":true}`)
+	cmd.Env = append(os.Environ(), "VERIF_DRIVER=c20_script", "VERIF_OUT="+dir, `VERIF_PARAMS={"limitgb":6,"noprobe":true,"marker":true}`)
 	var errb strings.Builder
 	cmd.Stderr = &errb
 	cmd.Stdout = &errb
 	res := ""
 	if err := cmd.Start(); err != nil {
-		res = "spawn-failed"
+		res = "unknown"
 	} else {
+		// "hang" = the last call has burnt `cpuLimit` of CPU time without returning (the machine may
+		// be loaded: wall time says nothing); no verdict ("unknown") if the child gets nowhere in 120 s
 		done := make(chan error, 1)
 		go func() { done <- cmd.Wait() }()
-		select {
-		case <-done:
-		case <-time.After(timeout):
-			_ = cmd.Process.Kill()
-			<-done
-			res = "hang"
+		var cpuAtCall time.Duration = -1
+		deadline := time.After(120 * time.Second)
+		tick := time.NewTicker(50 * time.Millisecond)
+		defer tick.Stop()
+	wait:
+		for {
+			select {
+			case <-done:
+				break wait
+			case <-deadline:
+				_ = cmd.Process.Kill()
+				<-done
+				res = "unknown"
+				break wait
+			case <-tick.C:
+				cpu := c20ProcCPU(cmd.Process.Pid)
+				if cpuAtCall < 0 {
+					if _, err := os.Stat(dir + "/last-call"); err == nil {
+						cpuAtCall = cpu
+					}
+				} else if cpu-cpuAtCall > cpuLimit {
+					_ = cmd.Process.Kill()
+					<-done
+					res = "hang"
+					break wait
+				}
+			}
 		}
 	}
 	o := c20EmptyObs(res)
@@ -1081,7 +1131,7 @@ func c20TV(d *vCtx) error {
 		go func(i int, r *c20Run) {
 			defer wg.Done()
 			sem <- struct{}{}
-			res := c20Probe(d, r, i, time.Duration(d.pInt("probetimeout", 3))*time.Second)
+			res := c20Probe(d, r, i, time.Duration(d.pInt("probecpu", 2))*time.Second)
 			<-sem
 			mu.Lock()
 			probeRes[res]++
@@ -1160,7 +1210,7 @@ func c20Catalogue(d *vCtx) error {
 		speedStr, etaStr := "--- B/s", "--- ETA"
 		if speed > 0 {
 			speedStr = fmt.Sprintf("%s/s", convertSizeToString(speed))
-			etaStr = fmt.Sprintf("%s ETA", convertTimeToString(math.Round(float64(g.size-g.step)/speed)))
+			etaStr = fmt.Sprintf("%s ETA", convertTimeToString(math.Max(0, math.Round(float64(g.size-g.step)/speed))))
 		}
 		pct := "100%"
 		if g.size != 0 {
